@@ -281,4 +281,59 @@ def runE (r : Region) : List Op → Except Err Region
 def combineRegions (c : Container) : Except Err Region :=
   runE (empty c.maxdepth) (combineOps c)
 
+/-! ### sessions: several region objects, `.mim` files
+
+  `save f` writes the current region to file `f`; `load f` makes a **fresh** region from what was
+  written (values, not references: nothing done afterwards to any other object can reach it);
+  the `…File` operations load their operand from a file, as `MIMAS.combine_regions` /
+  `intersect_regions` do.  -/
+
+structure Session where
+  cur : Region
+  files : Nat → Option Region
+
+inductive SessErr
+  | op (e : Err)
+  /-- the file was never written (`FileNotFoundError`) -/
+  | noFile
+  deriving DecidableEq, Repr
+
+inductive SessOp
+  | op (o : Op)
+  | save (f : Nat)
+  | load (f : Nat)
+  | unionFile (f : Nat) (renorm : Bool)
+  | withoutFile (f : Nat)
+  | intersectFile (f : Nat)
+  | symdiffFile (f : Nat)
+
+def onCur (s : Session) (o : Op) : Except SessErr (Session × Obs) :=
+  match step s.cur o with
+  | .ok (r, ob) => .ok ({ s with cur := r }, ob)
+  | .error e => .error (.op e)
+
+def withFile (s : Session) (f : Nat) (mk : Region → Op) : Except SessErr (Session × Obs) :=
+  match s.files f with
+  | some o => onCur s (mk o)
+  | none => .error .noFile
+
+def sessStep (s : Session) : SessOp → Except SessErr (Session × Obs)
+  | .op o => onCur s o
+  | .save f => .ok ({ s with files := fun g => if g = f then some s.cur else s.files g }, .none)
+  | .load f =>
+    match s.files f with
+    | some r => .ok ({ s with cur := r }, .none)
+    | none => .error .noFile
+  | .unionFile f b => withFile s f (fun o => .union o b)
+  | .withoutFile f => withFile s f .without
+  | .intersectFile f => withFile s f .intersect
+  | .symdiffFile f => withFile s f .symdiff
+
+def sessRun (s : Session) : List SessOp → Session × List (Except SessErr Obs)
+  | [] => (s, [])
+  | op :: ops =>
+    match sessStep s op with
+    | .ok (s', o) => let (sf, os) := sessRun s' ops; (sf, .ok o :: os)
+    | .error e => let (sf, os) := sessRun s ops; (sf, .error e :: os)
+
 end Aegean.Model.C08
